@@ -76,17 +76,33 @@ Definition facet_covered (t : tree) (ns : bytes * Z) : bool :=
   (zlen (dedup (flat_map fres_buckets frs)) <=? snd ns).
 Definition facets_covered (rq : request) (t : tree) : bool := forallb (facet_covered t) (q_fsizes rq).
 
+(* facet results are compared per requested facet: completely when the size covers all buckets;
+   otherwise only Total and Missing (which add up whatever the size): with a size that trims a list,
+   TermFacets.termLookup keeps the trimmed-off terms (TrimToTopN / Fixup cut only the slice), so counts
+   merged later into such a term are dropped — that state is not observable at the API, the model
+   (Shards.terms_add) does not have it, and the property does not speak about non-covering sizes *)
+Definition fres_weak_eqb (a b : fres) : bool :=
+  (f_total a =? f_total b) && (f_missing a =? f_missing b).
+Definition facets_agree (rq : request) (t : tree) (x y : facets) : bool :=
+  list_eqb beqb (map fst x) (map fst y) &&
+  forallb (fun ns =>
+    match facets_get x (fst ns), facets_get y (fst ns) with
+    | Some fx, Some fy => if facet_covered t ns then fres_eqb fx fy else fres_weak_eqb fx fy
+    | None, None => true
+    | _, _ => false
+    end) (q_fsizes rq).
+
 Definition model_agrees (g : guard) (rq : request) (t : tree) (a : oresult) : bool :=
   match search g t rq with
   | Some r =>
       obs_list_eqb (map hobs (r_hits r)) (o_hits a) && (r_total r =? o_total a) &&
-      (r_maxscore r =? o_maxscore a) && facets_eqb (r_facets r) (o_facets a)
+      (r_maxscore r =? o_maxscore a) && facets_agree rq t (r_facets r) (o_facets a)
   | None => false
   end.
 
 Definition oracle_agrees (rq : request) (t : tree) (a s : oresult) : bool :=
   obs_list_eqb (o_hits a) (o_hits s) && (o_total a =? o_total s) &&
-  (if facets_covered rq t then facets_eqb (o_facets a) (o_facets s) else true).
+  facets_agree rq t (o_facets a) (o_facets s).
 
 Definition check (c : case) : bool :=
   match c with
